@@ -35,7 +35,8 @@ PLANS['C01'] = {
     'level': 'exploration',
     'rule': ('seeded random DOMs (shape, classes known/unknown, database-driven and unknown properties, all binary value types '
              'with boundary pools, abstract refs) x random root antichain x {lz4,none,zstd}; each is written by rbx_binary, read back, '
-             'and compared with an expected dump derived from the abstract spec and the property statement; '
+             'and compared with an expected dump derived from the abstract spec and the property statement; the same bytes are also decoded through a reader that is not a slice (a few bytes per call / a small BufReader / '
+             'two halves chained) and must give the same DOM; one tree in four contains 2-4 instances of one class sharing a Content-object / Ref / SharedString column; '
              'non-trivial = >=2 written instances and >=1 property; distinct = digest of the expected dump'),
     'floor': {'quick': 3000, 'thorough': 100000},
     'assumptions': ['generator reach (see coverage.observed)', 'oracle in harness/src/expect.rs + dbwalk.rs (independent walk of rbx_reflection types)',
@@ -223,7 +224,7 @@ def _domops(pid):
 _DOM_RULE = ('histories of insert / destroy / transfer_within / transfer / clone_within / clone_into_external / clone_multiple_into_external over 1-3 real WeakDoms, '
              'arguments drawn within the documented preconditions (moving an instance under its own descendant is excluded: no tree can represent it; the list given to clone_multiple_into_external may repeat an '
              'instance or name an instance together with a descendant - nothing documented forbids it - and then any of the copies counts as the corresponding copy of a Ref target); '
-             'nodes carry 0-2 outward Ref properties, a self Ref, dangling Refs, pooled UniqueIds; '
+             'nodes carry 0-2 outward Ref properties, a self Ref, dangling Refs, pooled UniqueIds; one inserted builder in six is created on a freshly started thread; '
              'random histories of 20-400 operations (few live nodes, many operations) plus the exhaustive enumeration of every history in the small scopes '
              'listed under exhaustive_scopes (all valid argument choices at every step); after EVERY step each DOM is walked through the public API and compared '
              'with a reference model executing the documented meaning of the step; ')
@@ -411,7 +412,8 @@ PLANS['C13'] = {
     'level': 'fault_enumeration',
     'rule': ('a supervisor drives a worker process one case at a time (call/return over a pipe) so aborts, stack overflows and refused >1 GiB allocations are attributed to the open case; '
              'inputs: random bytes (with/without valid magic), valid binary (none/lz4/zstd), XML and attribute files mutated by bit flips, byte/u32 substitutions, off-by-one on length fields, '
-             'insert/delete/duplicate/splice, header / chunk-header / leading-count edits and chunk reordering; XML bombs (nesting 1e2..1e5, entity expansion, huge numbers/attributes, invalid UTF-8); '
+             'insert/delete/duplicate/splice, header / chunk-header / leading-count edits and chunk reordering, XML element text edited in place (multi-byte characters at the same byte length, number syntax, '
+             'off-by-one lengths, long runs); every 64 calls the same worker re-decodes three valid files and must report the digests it reported before it saw anything hostile (state left behind); XML bombs (nesting 1e2..1e5, entity expansion, huge numbers/attributes, invalid UTF-8); '
              'a structure-aware hostile corpus (~75 single-fault files built with the independent encoder primitives); '
              'fault enumeration: every strict prefix of each valid base file must be an error; every mutated/valid input is re-read through 1-byte, short-read and Interrupted readers and must give the same result; '
              'a sink failing at every output offset must make the writers return Err (or identical bytes when only interrupted). '
@@ -429,7 +431,8 @@ PLANS['C13'] = {
 
 PLANS['C08'] = {
     'level': 'exploration',
-    'rule': ('groups of 2-5 instances of one class (Part, MeshPart, TextLabel, ScreenGui, ImageLabel, StringValue, SpawnLocation, an unknown class) each carrying a random subset of logical properties under a '
+    'rule': ('groups of 2-5 instances of one class (Part, MeshPart, TextLabel, ScreenGui, ImageLabel, StringValue, SpawnLocation, an unknown class, and every class whose own default for a property differs from an '
+             'ancestor\'s - found by walking the database) each carrying a random subset of logical properties under a '
              'random spelling (canonical / alias / legacy migrating: Size|size, Color|Color3uint8|BrickColor|brickColor, Font|FontFace, IgnoreGuiInset|ScreenInsets, Image|ImageContent, MeshId|MeshContent ...); '
              'every instance is first round-tripped alone, then the group in ALL n! sibling orders (n<=4; 24 random orders above): every order must serialize, every instance must show exactly what it shows alone, '
              'gaps must hold the database default of the class (independent walk) or, if there is none, never a donor value; outcome classes must not depend on order; '
@@ -487,6 +490,7 @@ PLANS['C07'] = {
     'rule': ('each logical tree (generated, plus instances carrying several spellings of one logical property with different values) is built 6 ways (nested builders, chosen referents, shuffled '
              'property insertion order, reversed order + capacity, incremental inserts, flat insert + transfer_within) and serialized as binary x {lz4,none,zstd} and XML: all outputs byte-identical; '
              'the whole workload runs in P separate processes (other hash seeds; every other one runs the cases in the opposite order, so state kept between calls differs too) and their (case, format) -> output hashes are joined offline and must agree; '
+             'fault injection: after the first output of a case, saves are made to FAIL (sink refusing after k bytes, a tree the writer rejects) and the next save of the same tree must give the same bytes; '
              'fixed point: b2 = save(load(b1)), b3 = save(load(b2)) must be byte-identical; non-trivial = tree with >=3 nodes or >=2 properties; distinct = digest of the tree shape'),
     'floor': {'quick': 1500, 'thorough': 30000},
     'assumptions': ['process-level hash-seed diversity comes from ahash runtime keys: P processes sample P seeds, not all'],
@@ -510,7 +514,7 @@ PLANS['C16'] = {
     'rule': ('exhaustive walk of rbx_reflection_database::get() through the public rbx_reflection types: every superclass chain (resolves, acyclic), every alias target (canonical, same class), '
              'every serializes-as target (same class, typed, leads back to a serializing property), every migration target (serializable), every enum reference, every default value (belongs to a reachable '
              'property; type = declared, serialized, or a documented widening); then for EACH class an instance populated with all its serializable defaults is written and read by both codecs and compared '
-             'with the C01/C02 oracle; then EACH (class, own descriptor name) goes once through both writers and, where written, both readers (lookup paths must not panic; own output must be readable); '
+             'with the C01/C02 oracle; for EACH class a donor instance sets every default-carrying property to another value and a bare instance next to it must come back with the default visible on that class (nearest class wins); then EACH (class, own descriptor name) goes once through both writers and, where written, both readers (lookup paths must not panic; own output must be readable); '
              'the Lua-side copy rbx_dom_lua/src/database.json is cross-checked (version, classes, property sets, kinds). non-trivial = each class default instance per format; distinct = class x format'),
     'floor': {'quick': 15000, 'thorough': 15000},
     'exhaustive': {'quick': True, 'thorough': True},
